@@ -89,7 +89,7 @@ def run(chk):
             chk.count("tie_opt_functions")
             if a != "ok %d %s" % (f["counts"][0], toks_of_lines(f["optimized"]["lines"])):
                 chk.tie_broken("optimize on a compiled function: model and code disagree", {"source": src, "function": unhx(f["name"])})
-        states, lay = coexec.init_states(r0, nstates, seed=hash(src) & 0xFFFFFF)
+        states, lay = coexec.init_states(r0, nstates, seed=stable_hash(src))
         base, bad = coexec.run_all(m, "c02", r0, states, lay)
         if base is None:
             chk.count("unloadable"); continue
